@@ -562,6 +562,25 @@ impl Prop for C05Prop {
             if normalize_gensyms(&a) == normalize_gensyms(&b) {
                 return Some("evaluator-com-leaks-let-bound-names");
             }
+            // the leaked name may also have been *computed with* (lognot, logxor ..), which hides
+            // its digits: then the only visible fact is that the code is a function of the
+            // fresh-name counter and of nothing else.  Excused when the evaluator's com is in play
+            // (cl22 sigil or a defconst in the source) and recompiling at one counter value gives
+            // equal code twice while another counter value gives different code.
+            let src = v.case.get("source").and_then(|s| s.as_str()).unwrap_or("");
+            let dname = v.case.get("dialect").and_then(|d| d.as_str()).unwrap_or("");
+            if dname == "cl22" || src.contains("(defconst ") {
+                if let Some(d) = Dialect::parse(dname) {
+                    let at = |n: usize| {
+                        ARGNAME_CTR.store(n, Ordering::SeqCst);
+                        compile_out(src, d).ok().map(|o| o.code_hex)
+                    };
+                    let (a1, a2, b1) = (at(5000), at(5000), at(777_777));
+                    if a1.is_some() && a1 == a2 && b1.is_some() && a1 != b1 {
+                        return Some("evaluator-com-leaks-let-bound-names");
+                    }
+                }
+            }
             // the entry point converts the compiler's result to bytes in the thread's ambient
             // integer mode: excused only when the dialect is a legacy-integer one, the history
             // holds the ambient mode at the legacy value, and the two outputs are equal once
